@@ -52,6 +52,11 @@ pub enum Step {
     DirInPlace,
     /// (symlink layout only) write `doc` into a fresh directory and re-point the link to it
     Repoint { doc: usize },
+    /// two saves half a second apart: the second one lands on a whole second,
+    /// i.e. at the very instant of a poll whenever the reloader polls then, and
+    /// the schedule decides whether it comes before the poll's read, while the
+    /// reloader is applying the first save, or after
+    WriteTwice { first: usize, second: usize },
 }
 
 #[derive(Clone, Debug, Serialize, Deserialize, PartialEq)]
@@ -243,6 +248,7 @@ pub fn generate(rng: &mut Rng, tier: Tier) -> Scn {
         steps.push(Step::Sleep { s: *rng.pick(&[1u64, 1, 2, 3, 6, 31]) });
         steps.push(match rng.weighted(&[5, 2, 2, 2, 2, 1, 1, 2]) {
             7 => Step::WriteBackdated { doc: rng.below(ndocs as u64) as usize },
+            0 if rng.chance(1, 4) => Step::WriteTwice { first: rng.below(ndocs as u64) as usize, second: rng.below(ndocs as u64) as usize },
             0 => Step::Write { doc: rng.below(ndocs as u64) as usize },
             1 => Step::Touch,
             2 => Step::Damage { kind: rng.below(7) as u8, doc: rng.below(ndocs as u64) as usize },
@@ -287,6 +293,8 @@ enum FileState {
 
 struct Edit {
     at_ns: i64,
+    /// polls of the reloader that had already read the file when the edit was made
+    polls_before: usize,
     state: FileState,
 }
 
@@ -353,7 +361,7 @@ pub fn execute(scn: &Scn, opts: &ExecOpts) -> Outcome {
             let mut generation: u32 = 0;
             for st in &scn.steps {
                 let now = clock::now_ns();
-                let write = |text: &str| {
+                let write_at = |text: &str, now: i64| {
                     let is_link = fs::symlink_metadata(&path).map(|m| m.file_type().is_symlink()).unwrap_or(false);
                     if !(is_link && fs::metadata(&path).is_ok()) {
                         let _ = fs::remove_dir_all(&path);
@@ -362,6 +370,7 @@ pub fn execute(scn: &Scn, opts: &ExecOpts) -> Outcome {
                     fs::write(&path, text).unwrap(); // in place (through the link, if it is one)
                     set_mtime(&path, now);
                 };
+                let write = |text: &str| write_at(text, now);
                 match st {
                     Step::Sleep { s } => {
                         kernel::sim_sleep(Duration::from_secs(*s));
@@ -371,7 +380,7 @@ pub fn execute(scn: &Scn, opts: &ExecOpts) -> Outcome {
                         let t = render(&scn.docs[*doc], *doc);
                         write(&t);
                         last_text = t.clone();
-                        edits.lock().unwrap().push(Edit { at_ns: now, state: FileState::Text(t) });
+                        edits.lock().unwrap().push(Edit { at_ns: now, polls_before: kernel::current().map(|k| k.wake_count("reloader")).unwrap_or(0), state: FileState::Text(t) });
                     }
                     Step::WriteBackdated { doc } => {
                         let t = render(&scn.docs[*doc], *doc);
@@ -381,7 +390,7 @@ pub fn execute(scn: &Scn, opts: &ExecOpts) -> Outcome {
                         backdated += 1;
                         set_mtime(&path, common::T0_NS - (10 + backdated) * 3_600_000_000_000);
                         last_text = t.clone();
-                        edits.lock().unwrap().push(Edit { at_ns: now, state: FileState::Text(t) });
+                        edits.lock().unwrap().push(Edit { at_ns: now, polls_before: kernel::current().map(|k| k.wake_count("reloader")).unwrap_or(0), state: FileState::Text(t) });
                     }
                     Step::Touch => {
                         if path.is_file() {
@@ -393,7 +402,7 @@ pub fn execute(scn: &Scn, opts: &ExecOpts) -> Outcome {
                         let t = damage(*kind, &render(&scn.docs[*doc], *doc));
                         write(&t);
                         last_text = t.clone();
-                        edits.lock().unwrap().push(Edit { at_ns: now, state: FileState::Invalid(t) });
+                        edits.lock().unwrap().push(Edit { at_ns: now, polls_before: kernel::current().map(|k| k.wake_count("reloader")).unwrap_or(0), state: FileState::Invalid(t) });
                     }
                     Step::Torn { doc, permille } => {
                         let full = render(&scn.docs[*doc], *doc);
@@ -404,7 +413,7 @@ pub fn execute(scn: &Scn, opts: &ExecOpts) -> Outcome {
                         let t = full[..cut].to_string();
                         write(&t);
                         last_text = t.clone();
-                        edits.lock().unwrap().push(Edit { at_ns: now, state: FileState::Text(t) });
+                        edits.lock().unwrap().push(Edit { at_ns: now, polls_before: kernel::current().map(|k| k.wake_count("reloader")).unwrap_or(0), state: FileState::Text(t) });
                     }
                     Step::Repoint { doc } => {
                         let t = render(&scn.docs[*doc], *doc);
@@ -424,17 +433,34 @@ pub fn execute(scn: &Scn, opts: &ExecOpts) -> Outcome {
                             let _ = fs::remove_dir_all(path.parent().unwrap().join(format!("gen-{}", generation - 1)));
                         }
                         last_text = t.clone();
-                        edits.lock().unwrap().push(Edit { at_ns: now, state: FileState::Text(t) });
+                        edits.lock().unwrap().push(Edit { at_ns: now, polls_before: kernel::current().map(|k| k.wake_count("reloader")).unwrap_or(0), state: FileState::Text(t) });
+                    }
+                    Step::WriteTwice { first, second } => {
+                        let wakes = || kernel::current().map(|k| k.wake_count("reloader")).unwrap_or(0);
+                        let t1 = render(&scn.docs[*first], *first);
+                        write(&t1);
+                        edits.lock().unwrap().push(Edit { at_ns: now, polls_before: wakes(), state: FileState::Text(t1) });
+                        kernel::note("edit", "first of two");
+                        kernel::sim_sleep(Duration::from_millis(500));
+                        let now2 = clock::now_ns();
+                        let t2 = render(&scn.docs[*second], *second);
+                        write_at(&t2, now2);
+                        last_text = t2.clone();
+                        edits.lock().unwrap().push(Edit { at_ns: now2, polls_before: wakes(), state: FileState::Text(t2) });
+                        kernel::note("edit", "second of two");
+                        kernel::count("saves_at_a_poll_instant", 1);
+                        kernel::sim_sleep(Duration::from_millis(500));
+                        continue;
                     }
                     Step::Delete => {
                         let _ = fs::remove_dir_all(&path);
                         let _ = fs::remove_file(&path);
-                        edits.lock().unwrap().push(Edit { at_ns: now, state: FileState::Missing });
+                        edits.lock().unwrap().push(Edit { at_ns: now, polls_before: kernel::current().map(|k| k.wake_count("reloader")).unwrap_or(0), state: FileState::Missing });
                     }
                     Step::DirInPlace => {
                         let _ = fs::remove_file(&path);
                         let _ = fs::create_dir_all(&path);
-                        edits.lock().unwrap().push(Edit { at_ns: now, state: FileState::Dir });
+                        edits.lock().unwrap().push(Edit { at_ns: now, polls_before: kernel::current().map(|k| k.wake_count("reloader")).unwrap_or(0), state: FileState::Dir });
                     }
                 }
                 kernel::note("edit", &format!("{:?}", std::mem::discriminant(st)));
@@ -498,6 +524,9 @@ pub fn execute(scn: &Scn, opts: &ExecOpts) -> Outcome {
     }
     out.nontrivial = out.probes.get("polls_applying_new_config").copied().unwrap_or(0) > 0 || out.probes.get("polls_keeping_last_good").copied().unwrap_or(0) > 0;
     out.sim_ns = end_ns - start;
+    for (name, n) in &summary.counters {
+        out.probe(name, *n);
+    }
     out.summary = summary;
     let _: BTreeMap<u8, u8> = BTreeMap::new();
     out
@@ -555,7 +584,9 @@ fn judge(scn: &Scn, sink: &Sink, sleeps: &[(i64, u64)], alive_at_end: bool, star
             break;
         }
         // file state at the poll
-        let state = edits.iter().filter(|e| e.at_ns < poll_at).last().map(|e| e.state.clone()).unwrap_or(FileState::Text(render(&scn.docs[0], 0)));
+        // poll number i reads the file when the reloader resumes from its sleep number i; an
+        // edit made at the very same simulated instant is ordered by which thread ran first
+        let state = edits.iter().filter(|e| e.polls_before <= i && e.at_ns <= poll_at).last().map(|e| e.state.clone()).unwrap_or(FileState::Text(render(&scn.docs[0], 0)));
         match state {
             FileState::Missing | FileState::Dir => {
                 out.probe("polls_keeping_last_good", 1);
